@@ -27,7 +27,7 @@ for P in sorted(os.path.basename(d) for d in glob.glob(BASE + '/C??')):
         diff = open(d + '/patch.diff').read()
         files = sorted(set(re.findall(r'^\+\+\+ b/(\S+)', diff, re.M)))
         meta = {'property': P, 'round': ROUND,
-                'origin': 'sub-agent given only the text of the property and a scratch worktree (%s/%s, removed afterwards); %s' % (BASE, P, 'asked for corners a verification effort might overlook' if ROUND == 2 else 'asked for changes that need two cooperating sites or a multi-step history of calls'),
+                'origin': 'sub-agent given only the text of the property and a scratch worktree (%s/%s, removed afterwards); %s' % (BASE, P, 'asked for corners a verification effort might overlook' if ROUND == 2 else 'asked for small edits away from the obvious entry point (sibling impls, feature-gated paths, boundary branches)' if ROUND == 6 else 'asked for changes that need two cooperating sites or a multi-step history of calls'),
                 'files_changed': files, 'summary': ' '.join(first[:2])[:300], 'needs_to_manifest': 'see notes.md (written by the sub-agent)',
                 'confirmed_by_me': {'how': 'tools/confirm_mutants.py in the scratch worktree: git apply; cargo test --workspace --offline; copy demo into tests/ and run it; git checkout -- src; run the demo again',
                                     'suite_passes_with_change': True, 'demo_fails_with_change': True, 'demo_passes_without': True, 'demo_cmd': c.get('demo_cmd'),
